@@ -390,6 +390,30 @@ func autoSites(p *pkg, fn, prefix string, calls map[string]string) (string, []st
 			emit(fmt.Sprintf("%s_g%d_%d", prefix, k, j), fmt.Sprintf("%s: argument %d of the %s call #%d (%s)", fn, j, what, k, p.fset.Position(a.Pos())), func(t *tr) (string, ty) { return t.expr(a) })
 		}
 	}
+	// `switch tag { case a, b: ... }`: one definition per label, `tag == label`, in source order
+	nsw := 0
+	ast.Inspect(fd.Body, func(n ast.Node) bool {
+		sw, ok := n.(*ast.SwitchStmt)
+		if !ok || sw.Tag == nil {
+			return true
+		}
+		for _, cc := range sw.Body.List {
+			for _, lab := range cc.(*ast.CaseClause).List {
+				lab := lab
+				k := nsw
+				nsw++
+				emit(fmt.Sprintf("%s_s%d", prefix, k), fmt.Sprintf("%s: switch label #%d (%s)", fn, k, p.fset.Position(lab.Pos())), func(t *tr) (string, ty) {
+					a, ta := t.expr(sw.Tag)
+					b, tb := t.expr(lab)
+					if ta.w != tb.w {
+						fail("switch label width")
+					}
+					return fmt.Sprintf("(%s == %s)", a, b), ty{0, false}
+				})
+			}
+		}
+		return true
+	})
 	// arithmetic that is neither assigned nor tested: index expressions, call arguments, composite-literal fields
 	nx := 0
 	arith := func(e ast.Expr) bool {
@@ -487,7 +511,7 @@ func autoSites(p *pkg, fn, prefix string, calls map[string]string) (string, []st
 		r := r
 		emit(fmt.Sprintf("%s_r%d", prefix, k), fmt.Sprintf("%s: returned value #%d (%s)", fn, k, p.fset.Position(r.Pos())), func(t *tr) (string, ty) { return t.expr(r) })
 	}
-	shape := fmt.Sprintf("(\"%s\", [%d, %d, %d, %d, %d, %d])", prefix, len(cs), nu, na, len(rs), ng, nx)
+	shape := fmt.Sprintf("(\"%s\", [%d, %d, %d, %d, %d, %d, %d])", prefix, len(cs), nu, na, len(rs), ng, nx, nsw)
 	return out.String(), rows, shape
 }
 
@@ -510,7 +534,7 @@ func autoModule(out, mod string, p *pkg, fns [][2]string, calls map[string]strin
 	}
 	s += body
 	s += "/-- generated definitions and the identifiers each one mentions, in parameter order -/\ndef siteParams : List (String × List String) := [" + strings.Join(rows, ",\n  ") + "]\n\n"
-	s += "/-- per function: number of conditions, compound assignments, plain assignments, single-value returns, go/defer statements, further arithmetic expressions (indices, call arguments, literal fields) in the source -/\ndef shape : List (String × List Nat) := [" + strings.Join(shapes, ",\n  ") + "]\n"
+	s += "/-- per function: number of conditions, compound assignments, plain assignments, single-value returns, go/defer statements, further arithmetic expressions (indices, call arguments, literal fields), labels of tagged switches in the source -/\ndef shape : List (String × List Nat) := [" + strings.Join(shapes, ",\n  ") + "]\n"
 	s += footer(mod)
 	write(out, mod, s)
 }
